@@ -302,7 +302,9 @@ def finish(prop, mod, tier, seed, results, total_cells, capped, wall):
             states.add(ck + ":" + s)
         outcomes.update(r["outcomes"])
         transitions += r["transitions"]
-        traces += r["traces"]
+        # E3 cells that do not count traces themselves: the cell's complete comparison of the implementation
+        # with the reference model is one replayed trace (DESIGN 1.1)
+        traces += r["traces"] if r["traces"] else (1 if (r["evaluations"] > 0 and not r["error"]) else 0)
         evaluations += r["evaluations"]
         refused += r["refused"]
         nontrivial += 1 if r["nontrivial"] else 0
